@@ -334,8 +334,55 @@ def prog():
         fl = [l for l in sched if l and l[0] == "[function]"]
         sq = [l for l in fl if "pysnark_eqs_sq" in l[2]]
         d["V.schedule_lists_every_call"] = len(fl) == len(fns)
+        # the glue directives reach the schedule file verbatim (the proving tools read them there)
+        d["V.schedule_lists_every_glue"] = [l for l in sched if l and l[0] == "[glue]"] == [[str(x) for x in t] for t in glues]
         d["V.calls_share_equation_file"] = len(sq) == 2 and sq[0][2:] == sq[1][2:]
         return d
+
+
+@register
+class QapContextualize(_Backend):
+    """qapsplit.contextualize(tokens): the single function context of the wires of one line and the tokens with that
+    context stripped; a line whose wires live in two contexts is refused (ValueError) -- each equation is filed under
+    the context of its variables."""
+    name = "pysnark.qaptools.qapsplit:contextualize"
+    module = "pysnark.qaptools.qapsplit"
+    vprops = ("C12",)
+    fprops = ("C12",)
+    assigns = ("pysnark.qaptools.qapsplit:context",)
+    LINES = [
+        (["1", "main/1", "*", "1", "main/2", "=", "1", "main/3", "."], "main", False),
+        (["21888", "f_1_g/4", "3", "f_1_g/onex", "*", "=", "."], "f_1_g", False),
+        (["*", "=", "."], None, False),
+        (["1", "main/1", "*", "1", "main_0_sq/2", "=", "."], None, True),
+        (["f/i_1", "f/o_2", "g/o_2"], None, True),
+    ]
+
+    @property
+    def modules(self):
+        return ()
+
+    def world_setup(self, w):
+        _stub_world(w)
+
+    def configs(self, tier):
+        return [dict(idx=i, **({"raises_only": True} if self.LINES[i][2] else {})) for i in range(len(self.LINES))]
+
+    def setup(self, c, cfg):
+        m = c.w.import_module("pysnark.qaptools.qapsplit")
+        return m.contextualize, (list(self.LINES[cfg["idx"]][0]),), {}
+
+    def raises(self, c, toks):
+        return [(ValueError, self.LINES[c.cfg["idx"]][2])]
+
+    def post(self, c, r, toks):
+        want_ctx = self.LINES[c.cfg["idx"]][1]
+        orig = self.LINES[c.cfg["idx"]][0]
+        ok = isinstance(r, tuple) and len(r) == 2
+        return {"V.shape": ok,
+                "V.context": ok and r[0] == want_ctx,
+                "V.stripped_tokens": ok and list(r[1]) == [t.partition("/")[2] if "/" in t else t for t in orig],
+                "F.input_unchanged": toks == orig}
 
 
 def _qap_replay(self, ob, cfg, kind="qap"):
